@@ -37,7 +37,9 @@ YearV == [ absent |-> None,
            textover |-> Some([type |-> TEXT, data |-> <<52, 50, 57, 52, 57, 54, 55, 50, 57, 54>>]),
            text65536 |-> Some([type |-> TEXT, data |-> <<54, 53, 53, 51, 54>>]),
            text007 |-> Some([type |-> TEXT, data |-> <<48, 48, 55>>]),
-           binmax |-> Some([type |-> BINARY, data |-> <<255, 255, 255, 255>>]) ]
+           binmax |-> Some([type |-> BINARY, data |-> <<255, 255, 255, 255>>]),
+           \* the binary form whose four bytes happen to be ASCII digits: still the big-endian number
+           bindigits |-> Some([type |-> BINARY, data |-> <<50, 48, 48, 56>>]) ]
 PosterV == [ absent |-> None, empty |-> Some([type |-> IMAGE, data |-> <<>>]), one |-> Some([type |-> IMAGE, data |-> <<137>>]),
              big |-> Some([type |-> IMAGE, data |-> Bin(300)]) ]
 SummaryV == [ absent |-> None, short |-> Some([type |-> TEXT, data |-> <<115>>]),
@@ -59,6 +61,11 @@ Items ==
     [] unk = "after" -> k \o <<UnkItem(1)>>
     [] unk = "tiny" -> <<[cc |-> <<102, 114, 101, 101>>, raw |-> <<>>]>> \o k
                          \o <<[cc |-> <<122, 122, 122, 122>>, raw |-> <<1, 2, 3, 4>>], [cc |-> <<102, 114, 101, 101>>, raw |-> <<0, 0, 0>>]>>
+    \* items that are not among the four tags but whose names resemble them ('ldes', 'sdes', (c)wrt, 'titl')
+    [] unk = "named" -> <<[cc |-> <<169, 119, 114, 116>>, type |-> TEXT, data |-> <<119>>]>> \o k
+                          \o <<[cc |-> <<108, 100, 101, 115>>, type |-> TEXT, data |-> <<108, 111, 110, 103>>],
+                               [cc |-> <<115, 100, 101, 115>>, type |-> TEXT, data |-> <<115>>],
+                               [cc |-> <<116, 105, 116, 108>>, type |-> TEXT, data |-> <<116>>]>>
     [] unk = "between" -> (IF Len(k) > 0 THEN <<k[1]>> ELSE <<>>) \o <<UnkItem(1), UnkItem(2)>> \o (IF Len(k) > 0 THEN Tail(k) ELSE <<>>)
 
 ShapeV == [ mdir |-> [present |-> "full", fullbox |-> TRUE, handler |-> MDIR],
@@ -97,6 +104,7 @@ Logical ==
                      [] year = "textmax" \/ year = "binmax" -> Some(<<255, 255, 255, 255>>)
                      [] year = "text65536" -> Some(<<1, 0, 0>>)
                      [] year = "text007" -> Some(<<7>>)
+                     [] year = "bindigits" -> Some(<<50, 48, 48, 56>>)
                      [] OTHER -> None)
              ELSE None,
     poster |-> IF Visible /\ PosterV[poster].some THEN Some(PosterV[poster].v.data) ELSE None,
